@@ -199,6 +199,14 @@ def deep_value(tn, d):
     return v
 
 
+def deep_xer(tn, d):
+    if tn == "Rec":
+        return b"<Rec>" + b"<s>x</s><next>" * d + b"<s>z</s>" + b"</next>" * d + b"</Rec>"
+    if tn == "RecL":
+        return b"<RecL>" + b"<s>x</s><l><RecL>" * d + b"<s>z</s><l/>" + b"</RecL></l>" * d + b"</RecL>"
+    return b"<RecC>" + b"<node><s>x</s><c>" * d + b"<leaf>z</leaf>" + b"</c></node>" * d + b"</RecC>"
+
+
 def nodes(t, v, env, path=()):
     """(path, deref'd type, value) of every node of a value"""
     t = deref(t, env)
@@ -379,6 +387,18 @@ def wd_histories(run, m, rng, tier):
     encs = c_encodings(run, m, bers)
     good = []
     for (tn, v, lab), (_, b), e in zip(vals, bers, encs):
+        if e["der"] is None and lab.startswith("depth="):
+            # the C refuses the BER form already (the stack guard): the other syntaxes come from the Python encoders alone
+            e = {"der": None, "uper": None, "oer": None, "xer": deep_xer(tn, int(lab.split("=")[1])).hex()}
+            for s in ("uper", "oer"):
+                try:
+                    e[s] = PYENC[s](env[tn], v, env).hex()
+                except (EncErr, OverflowError, ValueError, KeyError):
+                    pass
+            e["ber"] = b.hex()
+            run.count("c14w_depth_beyond_ber_guard")
+            good.append((tn, v, lab, e))
+            continue
         if e["der"] is None:
             run.count("c14w_value_rejected_%s" % tn)
             continue
